@@ -317,3 +317,14 @@ fn c14_optimistic_candidate_is_choked_and_interested() {
     std::mem::forget(picked);
     std::mem::forget(s);
 }
+
+// @prop C13
+// @tier off
+// @fn Session::choose_piece_index
+// @bound 2 pieces, 2 peers (probe)
+// @desc probe of the chooser at the smallest interesting size
+#[kani::proof]
+#[kani::unwind(4)]
+fn c13_rarest_first_2x2_probe() {
+    choose_spec(2, 2);
+}
